@@ -169,12 +169,14 @@ void vf_harness(void) { const char* p; int n; parseInt(p, n); VF_CANARY(); }
     functions=['parseInt'],
     assumes=['parseInt: int arithmetic wraps for n > 9 digits (signed-overflow check off for this unit; outside the property)'],
 )
+# up to 9 digits always fit an int: a run of 1..9 digits (e.g. the fraction of a second given to nanoseconds) is a number, never the error value
+ALLDIG_ENSURES = '#define DG(i) (n <= (i) || DIG(p[i]))\n__CPROVER_ensures((DG(0) && DG(1) && DG(2) && DG(3) && DG(4) && DG(5) && DG(6) && DG(7) && DG(8)) ==> (__CPROVER_return_value >= 0 && __CPROVER_return_value <= 999999999))\n'
 parseInt_value = Unit(
     'parseInt_value', 'C19',
     cuts=[ISDIG_CUT(), Cut('pi', DC, r'^int parseInt\(const char\* p, int n\)\s*$')],
     text=PRE + ISDIG + r'''
 int parseInt(const char* p, int n)
-''' + PARSEINT_CONTRACT.replace('__CPROVER_r_ok(p, n)', '__CPROVER_is_fresh(p, 10) && n <= 9') + r'''@@pi@@
+''' + PARSEINT_CONTRACT.replace('__CPROVER_r_ok(p, n)', '__CPROVER_is_fresh(p, 10) && n <= 9').replace('__CPROVER_assigns()', ALLDIG_ENSURES + '__CPROVER_assigns()') + r'''@@pi@@
 void vf_harness(void) { const char* p; int n; parseInt(p, n); VF_CANARY(); }
 ''',
     entry='parseInt', variants={'': ['-DNMAX=9']}, unwind=11,
@@ -335,6 +337,34 @@ void vf_harness(void) {
     trusted=['CBMC floating-point model of floor()'],
 )
 UNITS += [ms_field]
+
+# ---- toString formats: in every numeric format the year is printed with 4 digits and the other fields with 2 (Date(String) reads them back by position)
+fmt_unit = Unit(
+    'Date_toString_formats', 'C19',
+    cuts=[Cut('ts', DC, r'^String Date::toString\(Date::Format fmt, bool utc\) const\s*$',
+              rules=[(r'if \(_t != _t\)\s*return "\?";', '', 1), (r'DateData d = calc\([^;]*\);', '', 1), (r'String\s+s;', '', 1),
+                     (r's = String::f\(("[^"]*")[^;]*;', r'VF_FMT(\1);', None), (r's = String\(\d+, ("[^"]*")[^;]*;', r'VF_FMT(\1);', None),
+                     (r'case HTTP:\s*\{.*?\n\t\}', 'case HTTP: break;', 1), (r'\n\tif \(utc\).*\Z', '\n}', 1)])],
+    text=PRE + r'''
+enum { LONG, FULL, SHORT, DATE_ONLY, HTTP };
+int g_fmts, g_bad;
+/* a numeric date format starts with the year: %04i, and continues with %02i fields */
+static void VF_FMT(const char* f) { g_fmts++;
+  if (!(f[0] == '%' && f[1] == '0' && f[2] == '4' && f[3] == 'i')) g_bad = 1;
+  __CPROVER_assert(f[0] == '%' && f[1] == '0' && f[2] == '4' && f[3] == 'i', "the year is written with four digits (years 1..999 too): the text is read back by position");
+  int i = 4; if (f[i] == '-') i++; __CPROVER_assert(f[i] == '%' && f[i + 1] == '0' && f[i + 2] == '2' && f[i + 3] == 'i', "the month follows with two digits"); }
+void Date_toString(int fmt)
+__CPROVER_requires(g_fmts == 0 && g_bad == 0 && LONG <= fmt && fmt <= HTTP)
+__CPROVER_ensures(!g_bad && (fmt != HTTP ==> g_fmts == 1))
+__CPROVER_assigns(g_fmts, g_bad)
+@@ts@@
+void vf_harness(void) { int f; Date_toString(f); VF_CANARY(); }
+''',
+    entry='Date_toString', unwind=12,
+    desc='Date::toString: each numeric format (LONG, FULL, SHORT, DATE_ONLY) prints the year with %04i and the month with %02i, so that Date(String) can read every year 0001..9999 back',
+    functions=['Date::toString (format strings)'], trusted=['printf zero-padded widths (libc)'],
+)
+UNITS += [fmt_unit]
 
 # replay: where the trace recipe of a unit does not reproduce (or there is none) the driver's battery runs on the real library: every day of 1582..2400 and every 97th day of
 # years 1..9999 against a linear-search calendar, weekday and h:m:s around 1970 on both sides, ISO texts with 15 zone forms on 6 time stamps
